@@ -200,6 +200,17 @@ class Sym:
         return "Sym(%s)" % (self.d,)
 
 
+class Str:
+    """abstract owned string (opt-in, `Evaluator.strings`): only its emptiness is tracked — True, False or None"""
+    __slots__ = ("empty",)
+
+    def __init__(self, empty):
+        self.empty = empty
+
+    def __repr__(self):
+        return "str(%s)" % {True: "empty", False: "nonempty", None: "?"}[self.empty]
+
+
 class Cond:
     """boolean normal form: op in cmp/and/or/not/true/false/sym"""
     __slots__ = ("op", "a")
@@ -225,7 +236,7 @@ def vkey(v):
         return "sym(%s)" % (v.d,)
     if isinstance(v, Agg):
         return "%s::%s(%s)" % (v.adt.split("::")[-1], v.var, ",".join("%s=%s" % (k, vkey(x)) for k, x in sorted(v.fields.items())))
-    if isinstance(v, (Obj, Slice)):
+    if isinstance(v, (Obj, Slice, Str)):
         return repr(v)
     if isinstance(v, tuple):
         return "(" + ",".join(vkey(x) for x in v) + ")"
@@ -360,6 +371,13 @@ def mkcmp(op, a, b):
             return Cond("false")
         if op == "Ge":
             return Cond("true")
+        if op == "Gt":
+            op = "Ne"      # unsigned: x > 0 ⇔ x != 0
+        elif op == "Le":
+            op = "Eq"
+    if isinstance(a, Bits) and isinstance(b, Bits) and b.is_const() and b.value() == 1 and op in ("Lt", "Ge"):
+        # unsigned: x < 1 ⇔ x == 0, x >= 1 ⇔ x != 0
+        op, b = ("Eq" if op == "Lt" else "Ne"), Bits.const(0, b.w)
     # trim common zero high bits for canonical form
     if isinstance(a, Bits) and isinstance(b, Bits):
         w = max(a.w, b.w)
@@ -474,6 +492,9 @@ class Evaluator:
         self.assume = {}
         # opt-in: integer fields of opaque (Sym) objects evaluate to named bit vectors instead of opaque scalars
         self.bitfields = False
+        # opt-in: owned strings are tracked by emptiness (the `err_str` accumulator idiom: messages are appended
+        # under conditions and the result is Err iff the string is non-empty)
+        self.strings = False
 
     def _inp(self, root, lo, w):
         b = Bits.inp(root, lo, w)
@@ -884,6 +905,8 @@ class Evaluator:
                         return v
                     rest = self._eval_stmts(tb, blk, k, dict(env), depth)
                     return self._ite(Cond("sym", "isResidual(%s)" % vkey(v)), Sym("residual(%s)" % vkey(v)), rest)
+            if self.strings and self._string_effects(tb, i, env, depth):
+                continue
             # other statements: locals assigned anywhere inside lose their known value
             for x, m in tb.walk(i):
                 if m["k"] in ("Assign", "AssignOp"):
@@ -905,6 +928,87 @@ class Evaluator:
         if blk.get("expr") is not None:
             return self.eval(tb, blk["expr"], env, depth)
         return Sym("unit")
+
+    _STR_MUT = ("write_fmt", "write_str", "push_str", "push", "insert_str", "insert")
+
+    def _string_effects(self, tb, i, env, depth):
+        """applies statement i when it only appends to tracked strings (directly, in a block, or in the taken branch of
+        an `if` whose condition is decided); returns False when the statement is anything else (nothing applied)"""
+        i, n = tb.e(i)
+        k = n["k"]
+        if self._noise(n) or self._has_return(tb, i):
+            return self._noise(n)
+        if k == "Block":
+            blk = tb.blocks[n["b"]]
+            ids = []
+            for sid in blk["stmts"]:
+                st = tb.stmts[sid]
+                if st["k"] != "expr":
+                    # a `let` inside: evaluate and bind in a scratch copy only if everything else is handled
+                    ids.append(("let", st))
+                else:
+                    ids.append(("expr", st["e"]))
+            if blk.get("expr") is not None:
+                ids.append(("expr", blk["expr"]))
+            env2 = dict(env)
+            for kind, x in ids:
+                if kind == "let":
+                    if x.get("else") is not None or x.get("init") is None:
+                        return False
+                    try:
+                        self.bind(x["pat"], self.eval(tb, x["init"], env2, depth), env2)
+                    except Unsupported:
+                        return False
+                elif not self._string_effects(tb, x, env2, depth):
+                    return False
+            for kk in env:
+                env[kk] = env2.get(kk, env[kk])
+            return True
+        if k == "If":
+            try:
+                c = self.cond_of_if(tb, n, env, depth)
+            except Unsupported:
+                return False
+            env_t = dict(env)
+            if isinstance(c, tuple):
+                c, binds = c
+                env_t.update(binds)
+            if isinstance(c, Cond) and c.op == "true":
+                if not self._string_effects(tb, n["then"], env_t, depth):
+                    return False
+                for kk in env:
+                    env[kk] = env_t.get(kk, env[kk])
+                return True
+            if isinstance(c, Cond) and c.op == "false":
+                return n.get("else") is None or self._string_effects(tb, n["else"], env, depth)
+            return False
+        if k == "Call":
+            # `x.unwrap()` / `.expect(..)` around the append
+            fn = (n.get("res") or n.get("fn") or "")
+            nm = fn.split("::")[-1]
+            if nm in ("unwrap", "expect") and n["args"]:
+                return self._string_effects(tb, n["args"][0], env, depth)
+            if nm in self._STR_MUT and n["args"]:
+                ri, rn = tb.e(n["args"][0])
+                while rn["k"] in ("Borrow", "Deref"):
+                    ri, rn = tb.e(rn["e"])
+                if rn["k"] in ("Var", "Upvar") and isinstance(env.get(rn["id"]), Str):
+                    nonempty = False
+                    if nm in ("write_fmt", "push", "insert"):
+                        nonempty = True
+                    else:
+                        try:
+                            a = self.eval(tb, n["args"][-1], env, depth)
+                        except Unsupported:
+                            a = None
+                        nonempty = (isinstance(a, Str) and a.empty is False) or (isinstance(a, Sym) and a.d.startswith("str:") and len(a.d) > 4)
+                        if not nonempty and not (isinstance(a, Str) and a.empty is True):
+                            env[rn["id"]] = Str(None if env[rn["id"]].empty else False)
+                            return True
+                    if nonempty:
+                        env[rn["id"]] = Str(False)
+                    return True
+        return False
 
     def cond_of_if(self, tb, n, env, depth):
         ci, cn = tb.e(n["cond"])
@@ -1299,6 +1403,16 @@ class Evaluator:
             if isinstance(v, Agg) and v.var == "Some":
                 return self.as_cond(body)
             return self.logic("and", Cond("sym", "isSome(%s)" % vkey(v)), self.as_cond(body))
+        if self.strings:
+            if fn == "alloc::string::String::new" and not args:
+                return Str(True)
+            if fn == "alloc::string::String::is_empty" and args and isinstance(args[0], Str) and args[0].empty is not None:
+                return Cond("true" if args[0].empty else "false")
+            if fn in ("alloc::fmt::format", "core::hint::must_use") and args:
+                # format!(..) of an error message: at least its literal text
+                return Str(False) if fn == "alloc::fmt::format" else args[0]
+            if args and isinstance(args[0], Str) and (name in ("to_owned", "to_string", "clone", "into", "from", "deref", "as_str", "into_boxed_str", "as_ref", "borrow")):
+                return args[0]
         if fn.startswith("core::result::Result::<T, E>::") and name in ("map_err", "map", "and_then", "is_ok", "is_err") and args and isinstance(args[0], Agg) and args[0].var in ("Ok", "Err"):
             # combinators on a result whose variant is known
             v = args[0]
